@@ -145,7 +145,8 @@ def run(prop_id, tier, seed, replay=None, configs=None, workers=None, quiet=Fals
     for key, vs in known_hit.items():
         lines.append("KNOWN-FINDING: property=%s %s [%s] (%d witnesses this run)"
                      % (prop_id, known[key]["what"], key, len(vs)))
-    rdir = os.path.join(env.VERIF, "replays", prop_id)
+    outroot = os.environ.get("VP_SCRATCH") or env.VERIF      # VP_SCRATCH: mutant self-tests must not touch /verif/evidence
+    rdir = os.path.join(outroot, "replays", prop_id)
     for key, vs in fresh.items():
         v = vs[0]
         if replay:
@@ -193,8 +194,8 @@ def run(prop_id, tier, seed, replay=None, configs=None, workers=None, quiet=Fals
             ev["coverage"]["emulated_pyx_out_of_bounds"] = emu.get("oob", 0)
         if arms:
             ev["coverage"]["branch_arms"] = arms
-        os.makedirs(os.path.join(env.VERIF, "evidence"), exist_ok=True)
-        with open(os.path.join(env.VERIF, "evidence", prop_id + ".json"), "w") as f:
+        os.makedirs(os.path.join(outroot, "evidence"), exist_ok=True)
+        with open(os.path.join(outroot, "evidence", prop_id + ".json"), "w") as f:
             json.dump(ev, f, indent=1)
 
     code = 0
